@@ -7,6 +7,7 @@ CONSTANTS
   FaultAts = {0, 1, 2, 3, 4, 6}
   MultiQ = FALSE
   KeepSched = TRUE
+  WCCheckBeforeLock = FALSE
 VIEW View
 INVARIANTS MonitorOK CloseLatched WCBounded
 CHECK_DEADLOCK FALSE
